@@ -463,38 +463,62 @@ Definition clamp (o : opts) (scale : Z) : Z :=
   let s1 := if max_shard o <? scale then max_shard o else scale in
   if s1 <? min_shard o then min_shard o else s1.
 
+(* the planning part of the cycle, with every intermediate plan kept (the theorems talk about them) *)
+Record stages := {
+  st_p0 : plan;            (* after getShardInfos *)
+  st_p1 : plan;            (* after gcTargets *)
+  st_p2 : plan;            (* after alleviateShards *)
+  st_p3 : plan;            (* after assignNoScrapingTargets *)
+  st_p4 : plan;            (* after tryScaleDown (= st_p3 otherwise) *)
+  st_need : Z * Z;         (* needed space: head, process *)
+  st_ev_a : list event; st_ev_b : list event; st_ev_c : list event;
+  st_scale : Z;            (* before clamping *)
+  st_s2 : sst; st_s3 : sst;
+}.
+
+Definition run_stages (o : opts) (i : input) (s0 : sst) : stages :=
+  let p0 := map (fun sh => fst (get_info sh)) (i_shards i) in
+  let gstatus := global_status (i_explore i) p0 in
+  let p1 := gc o (i_active i) p0 in
+  let ra := alleviate o p1 s0 in
+  let p2 := fst (fst (fst ra)) in
+  let need_a := snd (fst (fst ra)) in
+  let ev_a := snd (fst ra) in
+  let rb := assign o (i_active i) gstatus p2 (snd ra) in
+  let p3 := fst (fst (fst rb)) in
+  let need_b := snd (fst (fst rb)) in
+  let ev_b := snd (fst rb) in
+  let s2 := snd rb in
+  let need := (fst need_a + fst need_b, snd need_a + snd need_b) in
+  let need_zero := (fst need =? 0) && (snd need =? 0) in
+  let rc := if negb need_zero then ((try_scale_up o p3 need, p3, []), s2)
+            else if negb (max_idle o =? 0) then try_scale_down o p3 s2
+            else ((Z.of_nat (length p3), p3, []), s2) in
+  {| st_p0 := p0; st_p1 := p1; st_p2 := p2; st_p3 := p3; st_p4 := snd (fst (fst rc));
+     st_need := need; st_ev_a := ev_a; st_ev_b := ev_b; st_ev_c := snd (fst rc);
+     st_scale := fst (fst (fst rc)); st_s2 := s2; st_s3 := snd rc |}.
+
 Definition cycle_sst (o : opts) (i : input) (s0 : sst) : output * sst :=
-  let infos := map get_info (i_shards i) in
-  let p0 := map fst infos in
-  let logs0 := map snd infos in
-  let nok := Z.of_nat (length (filter si_ok p0)) in
+  let logs0 := map (fun sh => snd (get_info sh)) (i_shards i) in
+  let p0 := map (fun sh => fst (get_info sh)) (i_shards i) in
   let too_few := Z.of_nat (length p0) <? min_shard o in
   let early := if too_few then [min_shard o] else [] in
   if too_few && negb (i_scale1_ok i)
   then ({| o_logs := logs0; o_posts := map (fun _ => None) p0; o_scales := early; o_events := [];
            o_plan := p0; o_infos := p0; o_skipped := true; o_divzero := false |}, s0)
   else
-    let gstatus := global_status (i_explore i) p0 in
-    let p1 := gc o (i_active i) p0 in
-    let '((p2, need_a, ev_a), s1) := alleviate o p1 s0 in
-    let '((p3, need_b, ev_b), s2) := assign o (i_active i) gstatus p2 s1 in
-    let need := (fst need_a + fst need_b, snd need_a + snd need_b) in
-    let need_zero := (fst need =? 0) && (snd need =? 0) in
-    let divzero := negb need_zero && (max_proc o =? 0) in
-    let '((scale, p4, ev_c), s3) :=
-      if negb need_zero then ((try_scale_up o p3 need, p3, []), s2)
-      else if negb (max_idle o =? 0) then try_scale_down o p3 s2
-      else ((Z.of_nat (length p3), p3, []), s2) in
-    let applied := map (fun pr => apply_shard (i_active i) (fst pr) (snd pr)) (combine (i_shards i) p4) in
-    if divzero
-    then ({| o_logs := logs0; o_posts := map (fun _ => None) p0; o_scales := early; o_events := ev_a ++ ev_b;
-             o_plan := p3; o_infos := p0; o_skipped := false; o_divzero := true |}, s2)
+    let S := run_stages o i s0 in
+    let need_zero := (fst (st_need S) =? 0) && (snd (st_need S) =? 0) in
+    if negb need_zero && (max_proc o =? 0)
+    then ({| o_logs := logs0; o_posts := map (fun _ => None) p0; o_scales := early; o_events := st_ev_a S ++ st_ev_b S;
+             o_plan := st_p3 S; o_infos := p0; o_skipped := false; o_divzero := true |}, st_s2 S)
     else
-    ({| o_logs := map (fun pr => fst pr ++ snd (snd pr)) (combine logs0 applied);
-        o_posts := map fst applied;
-        o_scales := early ++ [clamp o scale];
-        o_events := ev_a ++ ev_b ++ ev_c;
-        o_plan := p4; o_infos := p0; o_skipped := false; o_divzero := false |}, s3).
+      let applied := map (fun pr => apply_shard (i_active i) (fst pr) (snd pr)) (combine (i_shards i) (st_p4 S)) in
+      ({| o_logs := map (fun pr => fst pr ++ snd (snd pr)) (combine logs0 applied);
+          o_posts := map fst applied;
+          o_scales := early ++ [clamp o (st_scale S)];
+          o_events := st_ev_a S ++ st_ev_b S ++ st_ev_c S;
+          o_plan := st_p4 S; o_infos := p0; o_skipped := false; o_divzero := false |}, st_s3 S).
 
 Definition cycle (o : opts) (i : input) (sch : list nat) : output := fst (cycle_sst o i (sst_of sch)).
 Definition cycle_traced (o : opts) (i : input) (sch : list nat) : output * list nat :=
